@@ -468,8 +468,13 @@ def _candidates(case, ctx, rdms, full, stack, mask, method, up, sigp):
                  'candidate %s scores %.12g > upper bound %.12g; data=%s mask=%s' % (
                      cands[worst].tolist(), avg[worst], up, full.tolist(), list(mask)))
     for tag in ('ref-pooled', 'lib-pooled'):
+        if tag not in tags:
+            ctx.fail(sigp + '|pooled-rdm-undefined:%s' % tag, case,
+                     'the measure is undefined for the %s RDM %s although the best-fitting RDM of the data '
+                     'is well defined (%s); data=%s mask=%s' % (tag, lib_p.tolist(), ref_p, full.tolist(), list(mask)))
+            continue
         i = tags.index(tag)
-        if not close(avg[i], up, TOL):
+        if avg[i] < up - TOL:       # (above the bound is reported as candidate-beats-upper)
             ctx.fail(sigp + '|pooled-rdm-does-not-attain-upper:%s' % tag, case,
                      '%s RDM %s scores %.12g, upper bound %.12g; data=%s mask=%s' % (
                          tag, cands[i].tolist(), avg[i], up, full.tolist(), list(mask)))
@@ -492,8 +497,7 @@ def _case_inv(case, ctx):
         ctx.exclude('invariance: a pooled RDM is undefined (direction vanishes)')
         return
     tkind = 'rescale' if case['shift'] == 0 else 'shift+rescale'
-    sigp = 'boot_noise_ceiling|method=%s,transform=%s,groups=%s' % (
-        method, tkind, _group_class(labels, len(stack)))
+    sigp = 'boot_noise_ceiling|method=%s,transform=%s' % (method, tkind)
     with ctx.guard(sigp, case):
         desc = 'index' if labels is None else 'grp'
         lo0, up0 = boot_noise_ceiling(_rdms(_masked(full, mask), labels), method=method, rdm_descriptor=desc)
@@ -587,12 +591,12 @@ def _case_leak(case, ctx):
             rest = tuple(sorted(all_rids - set(members)))
             sub = dict(case, group=list(left))
             if left not in pub0:
-                ctx.fail('sets_leave_one_out_rdm|%s|group-never-left-out' % cfg, sub,
+                ctx.fail('sets_leave_one_out_rdm|groups=%s|group-never-left-out' % _group_class(labels, n_rdm), sub,
                          'no fold leaves out exactly the RDMs %s (labels %s); folds leave out %s' % (
                              list(left), ref_labels, sorted(pub0)))
                 continue
             if pub0[left][0] != rest:
-                ctx.fail('sets_leave_one_out_rdm|%s|training-set-is-not-the-remaining-groups' % cfg, sub,
+                ctx.fail('sets_leave_one_out_rdm|groups=%s|training-set-is-not-the-remaining-groups' % _group_class(labels, n_rdm), sub,
                          'fold leaving out RDMs %s trains on RDMs %s, remaining groups are %s (labels %s)' % (
                              list(left), list(pub0[left][0]), list(rest), ref_labels))
             if rest not in rec0:
@@ -696,8 +700,7 @@ def _cv_exec(case, env, ctx):
     params, n_cond = case['params'], case['n_cond']
     full = _data(case, ctx.seed)
     n_rdm = full.shape[0]
-    sigp = 'cv_noise_ceiling|gen=%s,method=%s,random=%d,nan=%d' % (gen, method, int(case['random']),
-                                                                  1 if len(mask) else 0)
+    sigp = 'cv_noise_ceiling|gen=%s,method=%s,nan=%d' % (gen, method, 1 if len(mask) else 0)
     pdesc = 'index'
     with ctx.guard(sigp, case):
         rdms = _rdms(_masked(full, mask), labels, n_cond, params.get('cgrp'))
